@@ -87,7 +87,8 @@ HARNESS_FOR_OP = {"hparse": harness, "hseq": harness_seq,
 def gen_borrowed(ctx, escalate=False):
     P9, P5 = _p9(), _p5()
     n = (1500 if ctx.thorough() else 300) * (2 if escalate else 1)
-    out = P9.gen_crcv_hostile(ctx.rng, n) + P9.gen_srcv_hostile(ctx.rng, n) + P9.gen_xmit1_hostile(ctx.rng, n // 2)
+    out = P9.gen_crcv_hostile(ctx.rng, n) + P9.gen_srcv_hostile(ctx.rng, n) + P9.gen_xmit1_hostile(ctx.rng, n // 2) + \
+        [l for l in P9.gen_crcv(ctx.rng, n) if l.split(" ", 1)[0] in BORROWED_C09]     # incl. ETag changes (transfer restart)
     cov = dict(ctx.cov)
     out += P5.gen_tcp(ctx, n, 8, 4) + P5.gen_ws(ctx, n // 2, 6, 4) + P5.gen_ws_empty_runs(ctx, 6)
     ctx.cov.clear(); ctx.cov.update(cov)        # the owners' coverage notes belong to their own evidence
